@@ -2,16 +2,19 @@
 (* Validates records logged from the real srctools code against BspTablesOps.      *)
 (* Record kinds (field k):                                                         *)
 (*   rle / unrle   input and output of runlength_encode / runlength_decode as run   *)
-(*                 lists: must be exactly Rle / UnRle, and satisfy the code laws    *)
+(*                 lists: the encoder's output must decode (spec decoder) to its    *)
+(*                 input; the decoder must be exactly UnRle                         *)
 (*   foi / foe     table before, argument, result and table after of a              *)
-(*                 find_or_insert / find_or_extend call: must be exactly FoI / FoE  *)
-(*                 (conformance) and satisfy InsertLaw / ExtendLaw (the property)   *)
+(*                 find_or_insert / find_or_extend call: must satisfy InsertLaw /   *)
+(*                 ExtendLaw (earlier indexes stay valid, the index denotes an      *)
+(*                 equal item / sub-list), wherever the item is placed              *)
 (*   vis           a Visibility view written by the real writer, the lump decoded   *)
-(*                 by an independent reader: must be VisLayout of the rows          *)
+(*                 by an independent reader: count, offsets in range, and the bytes *)
+(*                 at every offset decode to the row (any block order / sharing)    *)
 (*   graph         an abstract cross-reference world, realised as objects,          *)
-(*                 assigned, saved, re-read, projected back to ids: the tables and  *)
-(*                 references must be what SaveWorld predicts (conformance) and     *)
-(*                 every reference must resolve to the object assigned (property)   *)
+(*                 assigned, saved, re-read, projected back to ids: every reference *)
+(*                 must resolve to the object assigned, every assigned view must    *)
+(*                 come back as a prefix of the view read (table placement free)    *)
 (*   prop          static props written and re-read in one format version           *)
 (*   fits          one boundary value of one integer field                          *)
 (*   rt            projection difference after assigning parsed views to an empty   *)
@@ -26,37 +29,34 @@ VARIABLE i
 M(c, item, field) == [clause |-> c, item |-> item, field |-> field]
 
 (* ---- run-length code ---------------------------------------------------------- *)
+\* the encoder is judged by what the decoder of the format makes of its output, not by which of the many
+\* codes of a string it picks
 VRle(r) ==
-    LET e == Rle(r.in) IN
-    (IF e = r.out THEN {} ELSE {M("rle.encode", "", "")})
-    \cup (IF CodeOK(r.out, FALSE, 255) THEN {} ELSE {M("rle.wellFormed", "", "")})
+    (IF CodeParses(r.out, FALSE) THEN {} ELSE {M("rle.parses", "", "")})
     \cup (IF Expand(r.out) = Canon(r.in) THEN {} ELSE {M("rle.inverse", "", "")})
 VUnRle(r) ==
     IF UnRle(r.in, r.start, r.max) = r.out THEN {} ELSE {M("rle.decode", "", "")}
 
 (* ---- index builders ------------------------------------------------------------ *)
+\* judged by the laws alone: earlier indexes stay valid, the index handed out denotes an equal item /
+\* sub-list.  Which position is chosen among several, and whether something is appended that could have been
+\* found, is not the property's concern.
 KeyOf(r) == IF DOMAIN r.fold = {} THEN Ident(ToSet(r.tbl) \cup ToSet(r.out) \cup (IF r.k = "foi" THEN {r.arg} ELSE ToSet(r.arg)))
             ELSE r.fold
 VFoi(r) ==
-    LET key == KeyOf(r)
-        e == FoI(r.tbl, key, r.arg)
-        got == [tbl |-> r.out, res |-> r.res]
-    IN (IF e = got THEN {} ELSE {M("foi.conform", "", "")})
-       \cup (IF InsertLaw(r.tbl, key, r.arg, got) THEN {} ELSE {M("foi.law", "", "")})
+    IF InsertLaw(r.tbl, KeyOf(r), r.arg, [tbl |-> r.out, res |-> r.res]) THEN {} ELSE {M("foi.law", "", "")}
 VFoe(r) ==
-    LET key == KeyOf(r)
-        e == FoE(r.tbl, key, r.arg)
-        got == [tbl |-> r.out, res |-> r.res]
-    IN (IF e = got THEN {} ELSE {M("foe.conform", "", "")})
-       \cup (IF ExtendLaw(r.tbl, key, r.arg, got) THEN {} ELSE {M("foe.law", "", "sublistAt")})
+    IF ExtendLaw(r.tbl, KeyOf(r), r.arg, [tbl |-> r.out, res |-> r.res]) THEN {} ELSE {M("foe.law", "", "sublistAt")}
 
 (* ---- visibility lump ------------------------------------------------------------ *)
 VVis(r) ==
-    (IF VisLayoutOK(r.rows, r.count, r.offsets, r.coded, r.lumplen) THEN {}
-     ELSE {M("vis.layout", "", IF r.count # Len(r.rows) \div 2 THEN "count"
-                               ELSE IF \E k \in 1..Len(r.coded) : r.coded[k] # Rle(r.rows[k]) THEN "coded" ELSE "offsets")})
+    (IF VisLumpOK(r.rows, r.count, r.offsets, r.at, r.lumplen) THEN {}
+     ELSE {M("vis.lump", "", IF r.count # Len(r.rows) \div 2 THEN "count"
+                             ELSE IF \E k \in 1..Len(r.at) : UnRle(r.at[k], 0, r.count) # Canon(r.rows[k]) THEN "rowAtOffset"
+                             ELSE "offsetRange")})
     \cup (IF r.indep = "same" THEN {} ELSE {M("vis.independentReader", "", "")})
     \cup (IF r.back = "same" THEN {} ELSE {M("vis.readBack", "", "")})
+    \cup (IF r.rewrite = "same" THEN {} ELSE {M("vis.idempotent", "", "")})
 
 (* ---- cross-reference graph ------------------------------------------------------- *)
 VisibleTables == {"planes", "texinfo", "surfedges", "primitives", "orig_faces", "faces", "hdr_faces", "brushes", "visleafs",
@@ -72,16 +72,18 @@ ProgOfKind(k) ==
       [] k = "texinfo" -> Prog("texinfo") [] k = "texdata" -> Prog("$texdata") [] k = "model" -> Prog("$models")
       [] k = "prop" -> Prog("props") [] OTHER -> << >>
 SameSet(a, b) == ToSet(a) = ToSet(b) /\ Len(a) = Len(b)
+\* Judged: (1) the reader hands back, for every reference of every object it returns, the object that was
+\* assigned (resolved through whatever tables the writer built); (2) a view that was assigned comes back as
+\* that list, possibly followed by objects the writers had to add; (3) entities keep their brush models.
+\* NOT judged: where in a shared table an added object lands, which of two equal entries an index names -
+\* SaveWorld (BspTablesOps) describes the placement of the present writers and is not a requirement.
 VGraph(r) ==
     LET w == r.w
         obs == r.obs
-        S == SaveWorld(w, r.waterSelf)
     IN IF obs.error # ""
-       THEN {M("graph.error", obs.error, IF obs.error = "read:IndexError" /\ ReadCrashes(S, w) THEN "asTranscribed" ELSE "")}
+       THEN {M("graph.error", obs.error, IF obs.error = "read:IndexError" /\ r.noneRefs THEN "noneRef" ELSE "")}
        ELSE
     LET seenObjs == DOMAIN obs.refs
-        bCrash == IF ReadCrashes(S, w) THEN {M("graph.conform.crash", "", "")} ELSE {}
-        bTables == {M("graph.conform.table", t, "") : t \in {x \in VisibleTables : S.T[x] # obs.tables[x]}}
         bPrefix == {M("graph.law.prefix", t, "") : t \in {x \in VisibleTables : ~IsPrefix(w.tables[x], obs.tables[x])}}
         slots == {<<o, k>> \in seenObjs \X (1..5) :
                     /\ o \in DOMAIN w.kind /\ k <= Len(ProgOfKind(w.kind[o]))
@@ -89,26 +91,17 @@ VGraph(r) ==
                     /\ ProgOfKind(w.kind[o])[k][1] \in DOMAIN obs.refs[o]}
         P(s) == ProgOfKind(w.kind[s[1]])[s[2]]
         Obs(s) == obs.refs[s[1]][P(s)[1]]
-        Pred(s) == IF <<s[1], P(s)[1]>> \in DOMAIN S.IX THEN Loaded(S, s[1], P(s)[1])
-                   ELSE LoadedNone(S, w.kind[s[1]], P(s)[1])
         IsPropSet(s) == P(s)[2] = "each" /\ w.kind[s[1]] = "prop"
-        Conf(s) == IF IsPropSet(s) THEN SameSet(Obs(s), Pred(s)) ELSE Obs(s) = Pred(s)
         Same(s, a, c) == IF IsPropSet(s) THEN SameSet(a, c)
                          ELSE IF P(s)[2] = "name" THEN Len(a) = Len(c) /\ \A k \in 1..Len(a) : w.fold[a[k]] = w.fold[c[k]]
                          ELSE a = c
-        bConf == {M("graph.conform.ref", w.kind[s[1]], P(s)[1]) : s \in {x \in slots : ~Conf(x)}}
-        \* the property: every reference resolves to what was assigned.  A failure that is exactly what the
-        \* transcribed index builders / reader produce is labelled so (the deviation of the transcription
-        \* from the design is the tail-prefix match of find_or_extend and the -1 index of a None reference)
-        bLaw == {M("graph.law.ref", w.kind[s[1]], P(s)[1] \o (IF Conf(s) THEN ":asTranscribed" ELSE "")) :
+        \* a None reference that comes back as an object: labelled, it is a known class of its own
+        NoneRef(s) == /\ Assigned(w, s[1], P(s)[1], P(s)) = <<>> /\ P(s)[2] = "one" /\ Obs(s) # <<>>
+                      /\ w.kind[s[1]] \in {"face", "hdrface"} /\ P(s)[1] \in {"orig", "texinfo"}
+        bLaw == {M("graph.law.ref", w.kind[s[1]], P(s)[1] \o (IF NoneRef(s) THEN ":noneRef" ELSE "")) :
                     s \in {x \in slots : ~Same(x, Obs(x), Assigned(w, x[1], P(x)[1], P(x)))}}
-        \* shared objects stay shared: a single reference is the very object at the predicted table position
-        bIx == {M("graph.law.index", w.kind[s[1]], P(s)[1]) :
-                  s \in {x \in slots : /\ P(x)[2] = "one" /\ x[1] \in DOMAIN obs.ix /\ P(x)[1] \in DOMAIN obs.ix[x[1]]
-                                       /\ <<x[1], P(x)[1]>> \in DOMAIN S.IX
-                                       /\ obs.ix[x[1]][P(x)[1]] # S.IX[<<x[1], P(x)[1]>>].i}}
         bEnt == IF obs.entmodels = w.tables["bmodels"] THEN {} ELSE {M("graph.law.entmodels", "", "")}
-    IN bCrash \cup bTables \cup bPrefix \cup bConf \cup bLaw \cup bIx \cup bEnt
+    IN bPrefix \cup bLaw \cup bEnt
 
 (* ---- static props ----------------------------------------------------------------- *)
 VProp(r) ==
